@@ -659,3 +659,17 @@ func (s *Server) Files(sub string) []string {
 	sort.Strings(out)
 	return out
 }
+
+// MatchOpPath reports whether a trace line ("seq op path nbytes") matches an arm pattern (matched on "op path").
+func MatchOpPath(pattern, traceLine string) bool {
+	f := strings.SplitN(traceLine, " ", 2)
+	if len(f) < 2 || strings.Contains(traceLine, "DIE-BEFORE") {
+		return false
+	}
+	rest := f[1]
+	if i := strings.LastIndex(rest, " "); i > 0 {
+		rest = rest[:i]
+	}
+	re, err := regexp.Compile(pattern)
+	return err == nil && re.MatchString(rest)
+}
